@@ -6,7 +6,7 @@ cd /verif
 name=$1; id=$2; tier=${3:-quick}
 wt=/tmp/vfmut/$name.$id.$$
 mkdir -p /tmp/vfmut
-git -C /repo worktree add --detach $wt HEAD >/dev/null 2>&1 || exit 3
+for try in 1 2 3 4 5; do git -C /repo worktree add --detach $wt HEAD >/dev/null 2>&1 && break; sleep 1; done; [ -d $wt ] || exit 3
 if ! git -C $wt apply $PWD/seeded/$name/patch.diff 2>/dev/null; then echo "$name: patch does not apply"; git -C /repo worktree remove --force $wt; exit 3; fi
 out=$wt.out; mkdir -p $out
 VF_REPO=$wt VF_OUT=$out ./check $id --tier $tier > $out/log 2>&1; rc=$?
